@@ -32,7 +32,7 @@ def main():
     nfix = sum(1 for l in open(os.path.join(V, "seeded", "INDEX.fixes.md")) if l.startswith("| revert")) if os.path.exists(os.path.join(V, "seeded", "INDEX.fixes.md")) else 0
     text = """## 7. Seeded changes and which checks catch them
 
-`/verif/seeded/<id>/` holds **%d changes that break a property** (`M-*`), written by independent sub-agents over nine
+`/verif/seeded/<id>/` holds **%d changes that break a property** (`M-*`), written by independent sub-agents over ten
 rounds (each given only one property's text and its own scratch worktree of /repo, nothing from /verif; from round 2 on
 additionally one sentence saying where to look or what had already been done, so that it would do something different),
 and **%d behaviour-preserving refactors** (`E-*`, six rounds). Each `M-*` was **confirmed by me** with
